@@ -419,6 +419,13 @@ type Clause struct {
 	Name string // optional label  "name: expr"
 }
 
+type GhostUpdate struct {
+	Field string
+	Arg   Expr
+	Val   Expr
+	Src   string
+}
+
 type LoopSpec struct {
 	Invariants []Clause
 	Decreases  *Clause
@@ -450,6 +457,7 @@ type Contract struct {
 	Decreases *Clause
 	Loops     map[int]*LoopSpec
 	Calls     []*CallSiteSpec
+	ReturnGhost   []GhostUpdate // ghost field updates performed at every return
 	ReturnAsserts []Clause // assertions over parameters, results and locals, checked at every return where they are in scope
 	Props     []string
 	Insts     map[string][]Clause // clause name -> instantiation hints ("var: term")
@@ -740,6 +748,28 @@ func (S *Specs) LoadFile(path string, extern bool) error {
 				return fail(fmt.Errorf("bad loop clause kind %q", f[1]))
 			}
 		case "at":
+			if strings.HasPrefix(rest, "return ghost ") {
+				// at return ghost f(x) = expr   (ghost update applied at every return)
+				body := strings.TrimSpace(strings.TrimPrefix(rest, "return ghost "))
+				i := strings.Index(body, " = ")
+				if i < 0 {
+					return fail(fmt.Errorf("at return ghost f(x) = expr"))
+				}
+				lhs, err := ParseExpr(strings.TrimSpace(body[:i]))
+				if err != nil {
+					return fail(err)
+				}
+				call, ok := lhs.(ECall)
+				if !ok || len(call.Args) != 1 {
+					return fail(fmt.Errorf("ghost update target must be a ghost field application"))
+				}
+				rhs, err := ParseExpr(strings.TrimSpace(body[i+3:]))
+				if err != nil {
+					return fail(err)
+				}
+				cur.ReturnGhost = append(cur.ReturnGhost, GhostUpdate{Field: call.Fn, Arg: call.Args[0], Val: rhs, Src: body})
+				continue
+			}
 			if strings.HasPrefix(rest, "return assert ") {
 				c, err := parseClause(strings.TrimSpace(strings.TrimPrefix(rest, "return assert ")))
 				if err != nil {
